@@ -1,5 +1,7 @@
 """C05 — HDF5 files are read faithfully and re-exported without loss (DESIGN.md 6/C05)."""
+import contextlib
 import fnmatch as _fnmatch
+import io
 import os
 import shutil
 import tempfile
@@ -61,6 +63,9 @@ THEOREMS = [
     "Verif.C05.attr_lookup_spec",
     "Verif.C05.attr_naming_rule",
     "Verif.C05.trap_total_spec",
+    "Verif.C05.attr_mapped_spec",
+    "Verif.C05.attr_mapped_default",
+    "Verif.C05.attr_mapped_other",
     "Verif.C01.cont_slice_samples",
     "Verif.C01.slice_samples",
 ]
@@ -80,7 +85,13 @@ RULE = (
     "path and by attribute, calibration of every force channel (whole and sliced), then save_as with omit patterns or a "
     "crop window drawn around the channel boundaries (40%: exported a second time with another window) and a reopen, "
     "comparing every dataset/attribute with the source (uncropped) or with the window filter (cropped), and the keep/drop "
-    "decision and new time attributes of every time-stamped item. Non-trivial: file cases with >=1 channel where the crop "
+    "decision and new time attributes of every time-stamped item; files are constructed by name or from an h5py handle, "
+    "half of those without images get photon channels under standard/custom detector names and an rgb_to_detectors "
+    "mapping, 30% export with verbose=True; + the 38 channel attributes on files holding all / none / all-but-one / random "
+    "subsets of the channels, and the rgb_to_detectors constructor option (every permutation of the standard and of "
+    "three custom detector names, 'None', a missing detector, two colours on one detector, option absent; random "
+    "mappings) on files with standard, custom or both kinds of detector datasets, each file constructed BOTH by name "
+    "and by File.from_h5py with the answers required to coincide. Non-trivial: file cases with >=1 channel where the crop "
     "window cuts at least one channel properly or drops one, or an omit pattern removes a proper subset; direct ops with a "
     "non-empty answer."
 )
@@ -90,6 +101,7 @@ TRUSTED = [
     "Python's fnmatch for patterns with '[' (outside the model; generated patterns use literals, * and ? only)",
 ]
 ASSUMPTIONS = [
+    "rgb_to_detectors mappings name all three colours (what a partial or empty dict means is not documented) and the file has no dataset literally called 'None'",
     "sample periods are integer nanoseconds >= 1 (what Continuous.to_dataset can store) and <= 2^50 ns (13 days; the range of period_round_trip — period_bound_witness shows a bound is needed); time-series steps <= 2^53 ns",
     "attributes other than Kind/Start/Stop/Sample rate are not required to survive a CROPPED export (the property speaks of channel equality there)",
 ]
@@ -199,6 +211,48 @@ def attr_universe():
     return out
 
 
+DETECTORS = ("Detector 1", "Detector 2", "Detector 3")
+COLOURS = ("Red", "Green", "Blue")
+PHOTON_GROUPS = {"photon_count": "Photon count", "photon_time_tags": "Photon Time Tags"}
+
+
+def attr_detectors():
+    """photon channels recorded under custom detector names (what the rgb_to_detectors option of File is for);
+    numbered after the fixed universe so that every channel keeps its own numbers"""
+    return [(f"Photon count/{d}", "cont") for d in DETECTORS] + [(f"Photon Time Tags/{d}", "tags") for d in DETECTORS]
+
+
+def enc_mapping(mapping):
+    """rgb_to_detectors as protocol token: N (option not given) or the code points of colour, detector, colour, …"""
+    if mapping is None:
+        return "N"
+    flat = []
+    for c in mapping:
+        flat += [c, mapping[c]]
+    return enc_listlist([[ord(ch) for ch in w] for w in flat])
+
+
+def colour_attr_path(attr, mapping):
+    """documented meaning of the option: the colour attribute reads, in its own group, the detector its colour is
+    mapped to (default: the detector named like the colour).  None for attributes that are not colour attributes."""
+    m = re.fullmatch(r"(red|green|blue)_(photon_count|photon_time_tags)", attr)
+    if not m:
+        return None
+    colour = m.group(1).capitalize()
+    return PHOTON_GROUPS[m.group(2)] + "/" + (mapping[colour] if mapping is not None else colour)
+
+
+def open_file(fn, route="name", mapping=None):
+    """the two public ways of constructing a File, with the constructor option when one is given"""
+    import h5py
+
+    lk = _lk()
+    kw = {} if mapping is None else {"rgb_to_detectors": dict(mapping)}
+    if route == "h5py":
+        return lk.File.from_h5py(h5py.File(fn, "r"), **kw)
+    return lk.File(fn, **kw)
+
+
 def attr_names():
     """the public channel attributes of File, from the documented naming scheme (written out independently of the
     Lean table): force<n><a>, corrected_force<n>x, downsampled_force<n>[<a>], distance<n>, <colour>_photon_count,
@@ -227,55 +281,65 @@ def attr_channel(idx, path, kind):
 
 
 def attr_spec(case):
-    uni = attr_universe()
+    uni = attr_universe() + attr_detectors()
     chans = [attr_channel(i, p, k) for i, (p, k) in enumerate(uni) if p in set(case["present"])]
     return {"version": case["version"], "root_attrs": {"Bluelake version": "unknown", "Experiment": "e", "Description": "d", "GUID": "g", "Export time (ns)": 1},
             "channels": chans, "calibrations": [], "markers": [], "notes": [], "kymos": []}
 
 
+def _attrs_read(f, exp):
+    """every channel attribute of an open File, each answer identified with the stored channel it equals"""
+    out = []
+    for a in attr_names():
+        try:
+            s = getattr(f, a)
+        except AttributeError:
+            out.append("no-such-attribute")
+            continue
+        except Exception as ex:
+            out.append(errname(ex))
+            continue
+        if len(s.data) == 0:
+            out.append("empty")
+            continue
+        ts, dat = np.asarray(s.timestamps), np.asarray(s.data, dtype=float)
+        hit = None
+        for p, e in exp.items():
+            if len(e["ts"]) == len(ts) and list(e["ts"]) == [int(t) for t in ts]:
+                if e["kind"] == "tags" or np.all(dat == np.asarray(e["data"], dtype=float)):
+                    hit = "path " + p
+                    break
+                # the magnitude of this channel and another one of the same length?
+                for q, e2 in exp.items():
+                    if q != p and len(e2["data"]) == len(dat) and np.allclose(dat, np.sqrt(np.asarray(e["data"], float) ** 2 + np.asarray(e2["data"], float) ** 2), rtol=1e-12, atol=0):
+                        hit = f"magnitude {p} | {q}"
+                        break
+                if hit:
+                    break
+        out.append(hit or f"unknown-channel n={len(ts)} t0={int(ts[0])}")
+    return out
+
+
 def _attrs_impl(case):
+    """the file is constructed both ways (File(name, …) and File.from_h5py(handle, …)) with the same constructor
+    option; an attribute whose answer depends on the construction route is reported as such"""
     import tempfile
 
-    lk = _lk()
     spec = attr_spec(case)
     exp = bh.expected_channels(spec)
-    shown = {p: show(e["kind"], e["ts"], e["data"]) for p, e in exp.items()}
-    out = []
+    per_route = {}
     with tempfile.TemporaryDirectory() as d:
         fn = os.path.join(d, "a.h5")
         bh.write_file(fn, spec)
-        f = lk.File(fn)
-        try:
-            for a in attr_names():
-                try:
-                    s = getattr(f, a)
-                except AttributeError:
-                    out.append("no-such-attribute")
-                    continue
-                except Exception as ex:
-                    out.append(errname(ex))
-                    continue
-                if len(s.data) == 0:
-                    out.append("empty")
-                    continue
-                ts, dat = np.asarray(s.timestamps), np.asarray(s.data, dtype=float)
-                hit = None
-                for p, e in exp.items():
-                    if len(e["ts"]) == len(ts) and list(e["ts"]) == [int(t) for t in ts]:
-                        if e["kind"] == "tags" or np.all(dat == np.asarray(e["data"], dtype=float)):
-                            hit = "path " + p
-                            break
-                        # the magnitude of this channel and another one of the same length?
-                        for q, e2 in exp.items():
-                            if q != p and len(e2["data"]) == len(dat) and np.allclose(dat, np.sqrt(np.asarray(e["data"], float) ** 2 + np.asarray(e2["data"], float) ** 2), rtol=1e-12, atol=0):
-                                hit = f"magnitude {p} | {q}"
-                                break
-                        if hit:
-                            break
-                out.append(hit or f"unknown-channel n={len(ts)} t0={int(ts[0])}")
-        finally:
-            f.h5.close()
-    return out
+        for route in ("name", "h5py"):
+            with warnings.catch_warnings():
+                warnings.simplefilter("ignore")  # a detector missing from the file is announced by a warning
+                f = open_file(fn, route, case.get("mapping"))
+            try:
+                per_route[route] = _attrs_read(f, exp)
+            finally:
+                f.h5.close()
+    return [a if a == b else f"construction-routes-differ File(name)={a!r} File.from_h5py={b!r}" for a, b in zip(per_route["name"], per_route["h5py"])]
 
 
 # ------------------------------------------------------------------ datasets: to_dataset / channel_class / from_dataset
@@ -538,6 +602,8 @@ def ops(case):
         return [f"c05.cropread2 {src_tokens(case['src'])} {case['crop'][0]} {case['crop'][1]} {case['crop2'][0]} {case['crop2'][1]}"]
     if k == "attrs":
         pres = enc_listlist([[ord(c) for c in p] for p in case["present"]])
+        if "mapping" in case:
+            return [f"c05.attrm {enc_mapping(case['mapping'])} {pres} {a}" for a in attr_names()]
         return [f"c05.attr {pres} {a}" for a in attr_names()]
     if k == "file":
         out = []
@@ -551,7 +617,17 @@ def ops(case):
 # ------------------------------------------------------------------ impl
 
 
-def read_all(f, spec):
+def attrs_reading(path, mapping):
+    """the File attributes that read this dataset: the fixed table, and for photon channels every colour the
+    constructor option maps to this detector (default: the colour of the same name)"""
+    g, n = path.split("/")
+    for suffix, group in PHOTON_GROUPS.items():
+        if g == group:
+            return [f"{c.lower()}_{suffix}" for c in COLOURS if (mapping[c] if mapping is not None else c) == n]
+    return [ATTR_ACCESS[path]] if path in ATTR_ACCESS else []
+
+
+def read_all(f, spec, mapping=None):
     """every channel of the spec through lk.File: by path (two spellings) and by attribute"""
     exp = bh.expected_channels(spec)
     got = {}
@@ -560,7 +636,8 @@ def read_all(f, spec):
         try:
             a = show_slice(e["kind"], f[g][n])
             b = show_slice(e["kind"], f[path])
-            c = show_slice(e["kind"], getattr(f, ATTR_ACCESS[path])) if path in ATTR_ACCESS else a
+            cs = [show_slice(e["kind"], getattr(f, attr)) for attr in attrs_reading(path, mapping)]
+            c = next((x for x in cs if x != a), a)
             got[path] = a if a == b == c else f"access-paths-differ {a[:80]} | {b[:80]} | {c[:80]}"
             if e["kind"] == "ts":
                 r = f[g][n].sample_rate
@@ -704,18 +781,31 @@ def _file_impl(case):
         bh.write_file(src, spec)
         with warnings.catch_warnings():
             warnings.simplefilter("ignore")
-            f = lk.File(src)
-            obs["read"] = read_all(f, spec)
+            opening = case.get("open", {})
+            route = opening.get("route", "name")
+            verbose = bool(case.get("verbose", False))  # progress messages must not change what is written
+            f = open_file(src, route, opening.get("mapping"))
+            obs["read"] = read_all(f, spec, opening.get("mapping"))
             obs["rates"] = {}
+            # path access to a group that is not a channel group (announced by a FutureWarning): the stored members
+            try:
+                obs["calgroups"] = {c["idx"]: sorted(f["Calibration"][c["idx"]]) for c in spec["calibrations"]}
+                if spec["calibrations"]:
+                    obs["calgroups"]["/"] = sorted(f["Calibration"])
+            except Exception as ex:
+                obs["calgroups"] = errname(ex)
             answers = []
             new = new2 = None
             out = os.path.join(d, "out.h5")
             if case["mode"] == "omit":
                 pats = case["omit"]
-                f.save_as(out, compression_level=case.get("compression", 5), omit_data=(pats[0] if len(pats) == 1 else set(pats)) if pats else None, verbose=False)
+                with contextlib.redirect_stdout(io.StringIO()):
+                    f.save_as(out, compression_level=case.get("compression", 5), omit_data=(pats[0] if len(pats) == 1 else set(pats)) if pats else None, verbose=verbose)
             elif case["mode"] == "crop":
-                f.save_as(out, compression_level=case.get("compression", 5), crop_time_range=tuple(case["crop"]), verbose=False)
+                with contextlib.redirect_stdout(io.StringIO()):
+                    f.save_as(out, compression_level=case.get("compression", 5), crop_time_range=tuple(case["crop"]), verbose=verbose)
             for line, kind, payload in file_plan(case):
+                n_before = len(answers)
                 try:
                     if kind == "dt":
                         g, n = payload.split("/")
@@ -755,7 +845,7 @@ def _file_impl(case):
                     elif kind == "keep":
                         grp, name = payload
                         if new is None:
-                            new = lk.File(out)
+                            new = open_file(out, route)
                         try:
                             it = f[grp][name][slice(*case["crop"])]
                             obs.setdefault("keep", {})[f"{grp}/{name}"] = [int(it.start), int(it.stop)]
@@ -771,13 +861,14 @@ def _file_impl(case):
                             answers.append(tree_status(f.h5, g, case["tree"]))
                     elif kind in ("crop", "cropread", "cropread2"):
                         if new is None:
-                            new = lk.File(out)
+                            new = open_file(out, route)
                         cur = new
                         if kind == "cropread2":
                             if new2 is None:
                                 out2 = os.path.join(d, "out2.h5")
-                                new.save_as(out2, compression_level=case.get("compression", 5), crop_time_range=tuple(case["crop2"]), verbose=False)
-                                new2 = lk.File(out2)
+                                with contextlib.redirect_stdout(io.StringIO()):
+                                    new.save_as(out2, compression_level=case.get("compression", 5), crop_time_range=tuple(case["crop2"]), verbose=verbose)
+                                new2 = open_file(out2, route)
                             cur = new2
                         g, n = payload.split("/")
                         e = exp[payload]
@@ -792,10 +883,11 @@ def _file_impl(case):
                         else:
                             answers.append("absent")
                 except Exception as ex:
+                    del answers[n_before:]  # exactly one answer per planned observation, also when it fails half-way
                     answers.append(errname(ex))
             if case["mode"] == "crop" and spec["kymos"]:
                 try:
-                    obs["kymo"] = kymo_observation(f, new or lk.File(out), spec, case["crop"])
+                    obs["kymo"] = kymo_observation(f, new or open_file(out, route), spec, case["crop"])
                 except Exception as ex:
                     obs["kymo"] = {"error": repr(ex)}
             if new2 is not None:
@@ -1048,13 +1140,13 @@ def oracle(case, ia):
                     path = {None: "Force HF/Force ", "corrected_": "Force HF/Corrected Force ", "downsampled_": "Force LF/Force "}[m.group(1)] + m.group(2) + m.group(3)
                 elif a.startswith("distance"):
                     path = "Distance/Distance " + a[-1]
-                elif a.endswith("_photon_count"):
-                    path = "Photon count/" + a.split("_")[0].capitalize()
                 else:
-                    path = "Photon Time Tags/" + a.split("_")[0].capitalize()
+                    # colour attributes: the detector the constructor option maps the colour to (default: its namesake)
+                    path = colour_attr_path(a, case.get("mapping"))
                 want = "path " + path if path in pres else "empty"
             if got != want:
-                return f"channel-by-attribute: File.{a} gave {got!r}; the file holds {sorted(pres)!r}, so it should give {want!r}"
+                opt = f" opened with rgb_to_detectors={case['mapping']!r}" if case.get("mapping") is not None else ""
+                return f"channel-by-attribute: File.{a} gave {got!r}; the file{opt} holds {sorted(pres)!r}, so it should give {want!r}"
         return None
     return None
 
@@ -1078,6 +1170,11 @@ def _file_oracle(case, ia):
         if e["kind"] == "cont" and path in obs.get("rates", {}):
             if obs["rates"][path] != 1e9 / e["dt"]:
                 return f"read: sample rate of {path} is {obs['rates'][path]!r}, stored {1e9 / e['dt']!r}"
+    want_groups = {c["idx"]: sorted(c["channels"]) for c in spec["calibrations"]}
+    if spec["calibrations"]:
+        want_groups["/"] = sorted(want_groups)
+    if "calgroups" in obs and obs["calgroups"] != want_groups:
+        return f"read: File['Calibration'] lists {obs['calgroups']!r}, the file stores {want_groups!r}"
     plan = file_plan(case)
     for (line, kind, payload), ans in zip(plan, ia):
         if kind == "dt":
@@ -1297,8 +1394,22 @@ def file_case(rng, stream, size="small", mode=None, version=None):
             if r2.chance(0.15):
                 # a calibration entry without the time field is skipped by from_field
                 c["channels"][nm] = {k_: v_ for k_, v_ in c["channels"][nm].items() if k_ != "Stop time (ns)"}
+    # how the File is constructed: by name or from an h5py handle; for files without images, photon channels under
+    # standard and custom detector names and a colour -> detector mapping given to the constructor
+    r4 = rng.fork("open")
+    opening = {"route": r4.choice(["name", "h5py"]), "mapping": None}
+    if not spec["kymos"] and r4.chance(0.5):
+        hf = next(c for c in spec["channels"] if c["kind"] == "cont")
+        names = r4.sample(list(COLOURS) + list(DETECTORS), r4.randint(1, 3))
+        for j, nm in enumerate(names):
+            n = r4.randint(1, 12)
+            spec["channels"].append({"group": "Photon count", "name": nm, "kind": "cont", "start": hf["start"] + r4.randint(0, 3) * hf["dt"], "dt": hf["dt"],
+                                     "n": n, "dtype": "u4", "values": [50 * (j + 1) + i for i in range(n)]})
+        if r4.chance(0.85):
+            opening["mapping"] = {c: r4.choice(names + names + ["None", "Detector 9"] + list(COLOURS)) for c in COLOURS}
     mode = mode or rng.choice(["omit", "crop", "crop"])
-    case = {"stream": stream, "op": "file", "spec": spec, "mode": mode, "compression": rng.choice([0, 1, 5, 9]), "cal_by_attr": rng.chance(0.5)}
+    case = {"stream": stream, "op": "file", "spec": spec, "mode": mode, "compression": rng.choice([0, 1, 5, 9]), "cal_by_attr": rng.chance(0.5), "open": opening,
+            "verbose": r4.chance(0.3)}
     case = finalize(case)
     case["cal_windows"] = crop_windows(rng, dict(spec, kymos=[]), 2)
     if mode == "omit":
@@ -1330,6 +1441,15 @@ def cases(tier, rng):
     }
     yield finalize({"stream": "corpus", "op": "file", "spec": spec, "mode": "crop", "crop": [100, 990], "cal_windows": []})
     yield finalize({"stream": "corpus", "op": "file", "spec": spec, "mode": "crop", "crop": [0, 150], "cal_windows": []})
+    # the shortest items there are: kymograph lines of one 1-ns sample without dead time (a one-line crop lasts 1 ns: the
+    # `stop - start > 0` edge of the keep rule), and the same with two pixels / with dead time; windows on every line edge
+    for P, k, pad in ((1, 1, 0), (2, 1, 0), (1, 1, 1)):
+        kspec = dict(spec, channels=[{"group": "Force HF", "name": "Force 1x", "kind": "cont", "start": 1000, "dt": 1, "n": 16, "dtype": "f8"}],
+                     kymos=[{"name": "k1", "P": P, "L": 4, "k": k, "pad": pad, "start": 1000, "dt": 1, "lead": 1, "pixel_nm": 100.0}])
+        line = 2 * pad + P * k
+        for a, b in ((1001, 1001 + line), (1001 + line, 1001 + 2 * line), (1001, 1001 + 2 * line), (1000, 1001), (1001 + 3 * line, 1001 + 4 * line),
+                     (1001 + 4 * line, 1100), (990, 1000)):
+            yield finalize({"stream": "corpus", "op": "file", "spec": kspec, "mode": "crop", "crop": [a, b], "cal_windows": []})
     yield {"stream": "corpus", "op": "cal", "times": [5, 5, 3, 5], "start": 5, "stop": 9}
 
     # ---- exhaustive small scopes
@@ -1549,6 +1669,36 @@ def cases(tier, rng):
         sub = r.fork(i)
         keep = sub.choice([0.2, 0.5, 0.8])
         yield {"stream": "random", "op": "attrs", "present": [p for p in uni if sub.chance(keep)], "version": sub.choice([1, 2]), "subseed": i}
+
+    # ---- the constructor option of File (rgb_to_detectors: colour -> detector name) on both construction routes:
+    #      files recorded with custom detector names, with the standard names, with both; mappings that permute the
+    #      standard names, use the custom ones, leave a colour out ("None"), name a detector the file lacks, or send two
+    #      colours to one detector; and the option not given at all on a file that has custom detectors
+    det = [p for p, _ in attr_detectors()]
+    std = [p for p in uni if p.startswith("Photon")]
+    names = list(COLOURS) + list(DETECTORS)
+    maps = [dict(zip(COLOURS, perm)) for perm in itertools.permutations(COLOURS)]
+    maps += [dict(zip(COLOURS, perm)) for perm in itertools.permutations(DETECTORS)]
+    maps += [
+        {"Red": "Detector 2", "Green": "None", "Blue": "Red"},
+        {"Red": "None", "Green": "None", "Blue": "None"},
+        {"Red": "Detector 1", "Green": "Detector 1", "Blue": "Green"},
+        {"Red": "Detector 9", "Green": "Blue", "Blue": "Detector 3"},
+        {"Blue": "Detector 1", "Red": "Detector 3", "Green": "Detector 2"},  # another key order
+    ]
+    layouts = [std + det, det, det + ["Photon count/Red"], std, list(uni) + det]
+    for li, present in enumerate(layouts):
+        yield {"stream": "small-scope", "op": "attrs", "present": present, "version": 2, "mapping": None}
+        for mi, m in enumerate(maps):
+            if not quick or li < 2 or (mi + li) % 3 == 0:
+                yield {"stream": "small-scope", "op": "attrs", "present": present, "version": 1 if (mi + li) % 5 == 0 else 2, "mapping": m}
+    r = rng.fork("c05-attrs-mapping")
+    for i in range(25 if quick else 600):
+        sub = r.fork(i)
+        keep = sub.choice([0.3, 0.6, 0.9])
+        pool = uni if sub.chance(0.3) else std
+        m = None if sub.chance(0.1) else {c: sub.choice(names + ["None", "Detector 9"]) for c in sub.sample(list(COLOURS), 3)}
+        yield {"stream": "random", "op": "attrs", "present": [p for p in list(pool) + det if sub.chance(keep)], "version": sub.choice([1, 2]), "mapping": m, "subseed": i}
 
     # ---- generated files
     r = rng.fork("c05-files")
